@@ -360,3 +360,70 @@ def replay_blocks(ver, cp):
         if cp in data.block(nm.replace(' ', '').replace('_', '')):
             n += 1
     return n <= 1
+
+
+# --- added after seeded-change review: the block table of every installable version = fold of the per-version update tables ------
+
+from elementpath.regex import unicode_blocks as _ub  # noqa: E402
+
+
+def _expected_blocks(version):
+    """independent fold of the block tables: base 2.0.0 + every UPDATE table with version <= the requested one, in version order"""
+    vi = tuple(int(x) for x in version.split('.'))
+    blocks = dict(_ub.UNICODE_BLOCKS_VER_2_0_0)
+    updates = []
+    for name in dir(_ub):
+        if name.startswith('UPDATE_BLOCKS_VER_'):
+            v = tuple(int(x) for x in name[18:].split('_'))
+            updates.append((v, getattr(_ub, name)))
+    for v, table in sorted(updates):
+        if v <= vi:
+            blocks.update(table)
+    return {k.replace(' ', '').replace('_', ''): val for k, val in blocks.items()}
+
+
+@ob(engine='z3', budget=300, bound='every code point x every block x all 32 installable versions: UnicodeData(version).block(name) = fold of the update tables up to that version',
+    funcs=[U + ':UnicodeData.__init__ (version gating of UPDATE_BLOCKS_* / REMOVED_BLOCKS_*)', U + ':UnicodeData.block'])
+def blocks_follow_version_tables(ctx):
+    import warnings
+    q = Queries(timeout_s=60, diff_binary=False)
+    x, rng = _bv()
+    cex = []
+    for ver in _us.UNICODE_VERSIONS:
+        with warnings.catch_warnings():
+            warnings.simplefilter('ignore')
+            data = UnicodeData(ver, categories={}) if ver not in unicode_categories.UNICODE_VERSIONS else UnicodeData(ver)
+        want = _expected_blocks(ver)
+        missing = sorted(set(want) - set(data._blocks))
+        extra = sorted(set(data._blocks) - set(want) - {'NoBlock'})
+        if missing or extra:
+            nm = (missing or extra)[0]
+            cex.append(dict(call='replay_block_table(%r, %r)' % (ver, nm), message='%s: block %s %s' % (ver, nm, 'missing' if missing else 'unexpected')))
+            continue
+        diffs = []
+        for nm, spec in want.items():
+            a = _ranges_of(data.block(nm)._codepoints)
+            b = _ranges_of(UnicodeSubset(spec)._codepoints)
+            diffs.append(_member(x, a) != _member(x, b))
+        res, m = q.check('%s: %d blocks equal to the folded tables' % (ver, len(want)), rng + [z3.Or(*diffs)])
+        if res == 'sat':
+            cp = mval(m, x)
+            bad = [nm for nm, spec in want.items() if (cp in data.block(nm)) != (cp in UnicodeSubset(spec))]
+            cex.append(dict(call='replay_block_table(%r, %r)' % (ver, bad[0] if bad else ''), message='%s: block %s differs at U+%04X' % (ver, bad[:1], cp)))
+    q.samples.append('versions=%d' % len(_us.UNICODE_VERSIONS))
+    return q.result(cex)
+
+
+def replay_block_table(ver, nm):
+    import warnings
+    with warnings.catch_warnings():
+        warnings.simplefilter('ignore')
+        data = UnicodeData(ver, categories={}) if ver not in unicode_categories.UNICODE_VERSIONS else UnicodeData(ver)
+    want = _expected_blocks(ver)
+    if nm not in want:
+        return nm not in data._blocks
+    try:
+        got = data.block(nm)
+    except KeyError:
+        return False
+    return got._codepoints == UnicodeSubset(want[nm])._codepoints
